@@ -21,7 +21,29 @@ def _names_harnesses():
     return hs
 
 
+def _flags_harnesses():
+    hs = []
+    T = [('class_access', 'ClassAccess', 'JVMS Table 4.1-B'), ('field_access', 'FieldAccess', 'JVMS Table 4.5-A'), ('method_access', 'MethodAccess', 'JVMS Table 4.6-A'),
+         ('inner_class_flags', 'InnerClassFlags', 'JVMS Table 4.7.6-A'), ('parameter_flags', 'ParameterFlags', 'JVMS 4.7.24'),
+         ('module_flags', 'ModuleFlags', 'JVMS 4.7.25 module_flags'), ('module_requires_flags', 'ModuleRequiresFlags', 'JVMS 4.7.25 requires_flags'),
+         ('module_exports_flags', 'ModuleExportsFlags', 'JVMS 4.7.25 exports_flags'), ('module_opens_flags', 'ModuleOpensFlags', 'JVMS 4.7.25 opens_flags')]
+    for n, ty, ref in T:
+        hs.append(dict(name=n + '_decode', props=['C01'], complete=True,
+                       text=f'{ty}::from(u16): every boolean equals its bit of {ref} for all 65 536 values, and u16::from(..) gives back exactly the value masked to the table'))
+        hs.append(dict(name=n + '_encode', props=['C02'], complete=True,
+                       text=f'u16::from({ty}): the value written has exactly the bits of {ref} for the set booleans (all combinations), and decodes back to the same flags'))
+    hs.append(dict(name='canary_flags_must_fail', props=[], canary=True, text='must fail'))
+    return hs
+
+
 GROUPS = {
+    'flags': dict(
+        crate='duke', file='duke/src/lib.rs', modpath='verif_kani_flags', harness_file='flags.rs',
+        functions=['duke/src/tree/class.rs::From<u16> for ClassAccess / From<ClassAccess> for u16', 'duke/src/tree/class.rs::InnerClassFlags <-> u16',
+                   'duke/src/tree/field.rs::FieldAccess <-> u16', 'duke/src/tree/method.rs::MethodAccess <-> u16', 'duke/src/tree/method.rs::ParameterFlags <-> u16',
+                   'duke/src/tree/module.rs::ModuleFlags / ModuleRequiresFlags / ModuleExportsFlags / ModuleOpensFlags <-> u16'],
+        trusted=['flag harnesses: loop-free, the whole u16 domain / all boolean combinations (complete); oracle = JVMS flag tables written in the harness'],
+        harnesses=_flags_harnesses()),
     'names': dict(
         crate='quill', file='quill/src/tree/mod.rs', modpath='tree::verif_kani_names', harness_file='names.rs',
         functions=['quill/src/tree/mod.rs::names::Names::change_name', 'quill/src/tree/mod.rs::names::Names::reorder',
